@@ -53,7 +53,7 @@ KINDS = ["valid", "not-json", "empty", "truncated", "binary", "foreign-type", "b
          # the same text in an encoding a text-mode reader does not expect: judged DIFFERENTIALLY against loading the file directly
          "encoded-utf8-bom", "encoded-utf16"]
 CLASS_FLOORS = {"layouts-0": 3, "layouts-1": 20, "layouts-2": 20, "layouts-3": 10, "compose-preferred": 20, "legacy-name": 20,
-                "both-names": 20, "spelling-relative": 20, "spelling-double-slash": 10, "spelling-dot-segment": 10, "spelling-relative-dotdot": 10, "trailing-slash": 20, "heterogeneous": 10, "missing-file": 50, "accessor-loaded": 100, "mixed-kinds-two-names": 10}
+                "both-names": 20, "dirname-with-special-characters": 50, "spelling-relative": 20, "spelling-double-slash": 10, "spelling-dot-segment": 10, "spelling-relative-dotdot": 10, "trailing-slash": 20, "heterogeneous": 10, "missing-file": 50, "accessor-loaded": 100, "mixed-kinds-two-names": 10}
 for _k in KINDS:
     CLASS_FLOORS["kind-" + _k] = 10
 
@@ -216,6 +216,8 @@ def materialise(pm, cfg, base, texts):
     return placed
 
 
+DIRNAME_STYLES = ["c%d", "c%d", "c%d [old]", "c%d", "F-22-[20150522.%d]", "c%d", "c%d*", "c%d?x", "c%d", "c%d (copy) #1", "c%d-\u00e9", "c%d%%20x",
+                  "c%d", "[c%d]", "c%d{a,b}"]
 SPELLINGS = ["plain", "plain", "relative", "double-slash", "dot-segment", "relative-dotdot", "plain", "relative"]
 
 
@@ -231,17 +233,23 @@ def check_config(ctx, pm, cfg, workdir, texts, counter):
 
 
 def _check_config(ctx, pm, cfg, workdir, texts, counter):
-    base = os.path.join(workdir, "c%d" % counter)
+    # directory names are the caller's: characters that mean something to glob / fnmatch / the shell / URL parsers are
+    # ordinary characters in a file name
+    style = cfg.get("dirname_style") or DIRNAME_STYLES[(counter // 3) % len(DIRNAME_STYLES)]
+    name = style % counter
+    base = os.path.join(workdir, name)
     if os.path.exists(base):
         shutil.rmtree(base)
     placed = materialise(pm, cfg, base, texts)
     spelling = cfg.get("spelling") or SPELLINGS[counter % len(SPELLINGS)]
-    path = {"plain": base, "relative": "c%d" % counter, "double-slash": base.replace("/c%d" % counter, "//c%d" % counter),
-            "dot-segment": os.path.join(os.path.dirname(base), ".", "c%d" % counter),
-            "relative-dotdot": os.path.join("c%d" % counter, "..", "c%d" % counter)}[spelling]
+    path = {"plain": base, "relative": name, "double-slash": os.path.dirname(base) + "//" + name,
+            "dot-segment": os.path.join(os.path.dirname(base), ".", name),
+            "relative-dotdot": os.path.join(name, "..", name)}[spelling]
     path = path + ("/" if cfg["slash"] else "")
-    case = dict(cfg, spelling=spelling)
+    case = dict(cfg, spelling=spelling, dirname_style=style)
     ctx.count("spelling-" + spelling)
+    if style != "c%d":
+        ctx.count("dirname-with-special-characters")
     ctx.count("layouts-%d" % len(cfg["layouts"]))
     if cfg["slash"]:
         ctx.count("trailing-slash")
